@@ -3,7 +3,8 @@
    barrier stages and handlers, any batch sizes, any interleaving (every reachable state). *)
 From Coq Require Import Arith Lia.
 From DC Require Import Disruptor.Pipeline.
-From DC Require Disruptor.HB Disruptor.MultiPub.
+From Coq Require Import ZArith.
+From DC Require Disruptor.HB Disruptor.MultiPub Disruptor.PipeReplay Disruptor.MultiReplay.
 
 (* in order, exactly once, no gaps: whenever a handler is about to handle a sequence, it is the successor of
    the last one it returned from (it starts at 1: see C04_seq0_never_delivered) *)
@@ -62,7 +63,29 @@ Theorem C04_multi_only_written_and_published : forall N, 1 <= N -> forall s,
   MultiPub.reachable N s -> MultiPub.gate s <= MultiPub.cursor s /\ forall q, 1 <= q <= MultiPub.cursor s -> MultiPub.pub s q = true.
 Proof. exact MultiPub.consumers_see_only_published. Qed.
 
+(* ---- the tie between the explored executions and the proof models is itself checked: REPLAY ---------------------------
+   Every logged execution of the hooked implementation is replayed on the proof model (single producer: Disruptor/Pipeline.v,
+   multi producer: Disruptor/MultiPub.v): each event that corresponds to a model step must be enabled in the model's current
+   state with exactly the observed values.  An accepted trace is an execution of the model, so the theorems above hold for
+   that very execution (the extracted replay functions run on every explored schedule of the checks C04 C05 C06 C13 C14). *)
+Theorem C04_replayed_single_producer_run_is_a_model_run : forall N H stage last l r',
+  PipeReplay.replay N H stage last (PipeReplay.rinit) l 0 = ((-1)%Z, r') ->
+  Pipeline.reachable N H stage last (PipeReplay.pm r').
+Proof. exact PipeReplay.replay_sound. Qed.
+
+Theorem C04_replayed_multi_producer_run_is_a_model_run : forall N, 1 <= N -> forall gating l r',
+  MultiReplay.replay N gating MultiReplay.rinit l 0 = ((-1)%Z, r') -> MultiPub.reachable N (MultiReplay.rm r').
+Proof. exact MultiReplay.replay_sound. Qed.
+
+Theorem C04_replayed_multi_producer_run_only_published : forall N, 1 <= N -> forall gating l r',
+  MultiReplay.replay N gating MultiReplay.rinit l 0 = ((-1)%Z, r') ->
+  forall q, 1 <= q <= MultiPub.cursor (MultiReplay.rm r') -> MultiPub.pub (MultiReplay.rm r') q = true.
+Proof. exact MultiReplay.replay_cursor_only_published. Qed.
+
 Print Assumptions C04_in_order_exactly_once.
+Print Assumptions C04_replayed_single_producer_run_is_a_model_run.
+Print Assumptions C04_replayed_multi_producer_run_is_a_model_run.
+Print Assumptions C04_replayed_multi_producer_run_only_published.
 Print Assumptions C04_multi_only_written_and_published.
 Print Assumptions C04_delivery_percursor_stale_reads.
 Print Assumptions C04_only_written_and_published.
